@@ -668,12 +668,15 @@ Proof.
 Qed.
 
 (** * the executable statement of the item line holds of the model's own output *)
-Lemma check_item_run : forall v, check_item v (run_item v) = true \/ run_item v = v_outside.
+Lemma check_item_run_with : forall opq unm v, check_item v (run_item_with opq unm v) = true \/ run_item_with opq unm v = v_outside.
 Proof.
-  intros v. unfold run_item.
-  destruct (negb (pcfg_dom _) || negb (qpcfg_dom _) || p_has_unmodelled _ || qp_has_opaque _); [right; reflexivity|].
+  intros opq unm v. unfold run_item_with.
+  destruct (negb (pcfg_dom _) || negb (qpcfg_dom _) || unm _ || qp_has_opaque _); [right; reflexivity|].
   left. destruct (v_task (v_nth 2 v)) as [t|]; [|reflexivity].
   destruct (negb (pcfg_ok _) || negb (qpcfg_ok _)); [reflexivity|].
   destruct (pipeline_t _ _ _ _ _ _ _ _) as [y| |]; [|reflexivity|reflexivity].
   destruct (x_in y); reflexivity.
 Qed.
+
+Lemma check_item_run : forall v, check_item v (run_item v) = true \/ run_item v = v_outside.
+Proof. intros v. apply check_item_run_with. Qed.
